@@ -94,7 +94,7 @@ def with_epilogue(scripts):
 
 
 def run(ctx):
-    mon = lambda tr, sc: SC.mon_sanity(tr) + mon_requests(tr, sc)
+    mon = lambda tr, sc: SC.mon_sanity(tr) + mon_requests(tr, sc) + SC.mon_unordered_ids(tr)
     from .sessgen import Gen
     g = Gen(ctx.rng, PROFILE, (8, 30))
     n = 300 if ctx.quick() else 5000
